@@ -162,6 +162,14 @@ def checkDelivered (who : String) (enc : Option String) (frames : List Frame) (g
 def supports (reg : List String) (legacyDecomp : Option String) (name : String) : Bool :=
   reg.contains name || legacyDecomp == some name
 
+/-- does the client's AcceptCompressors option (if any) allow this response encoding -/
+def clientAccepts (o : Op) (name : String) : Bool :=
+  match o.client.accept with
+  | none => true
+  | some names => match acceptedConfig o.reg [] names with
+    | .ok al => acceptedAllows al name
+    | .error _ => true
+
 def firstSome : List (Option String) → String
   | [] => "ok"
   | some v :: _ => v
@@ -214,6 +222,18 @@ def monitor (o : Op) (impl : String) : String :=
       -- clause 4
       (if o.kind ≠ "raws" then checkDelivered "server" reqEnc reqFrames sgot else none),
       (if o.kind ≠ "rawc" then checkDelivered "client" respEnc respFrames cgot else none),
+      -- round trips (e2e, both peers real): a request stream in an encoding the server supports is
+      -- accepted and decoded; a response in an encoding the client supports and accepts succeeds
+      (if o.kind = "e2e" ∧ opened = "OK" ∧ (checkFlags "client" reqEnc o.reqs reqFrames).isNone
+            ∧ (!nonIdentity (reqEnc.getD "") || supports o.reg o.server.legacyDecomp (reqEnc.getD ""))
+            ∧ srv ≠ "ok" then
+        some s!"VIOL server failed ({srv}) on a request stream whose encoding it supports"
+       else none),
+      (if o.kind = "e2e" ∧ srv = "ok" ∧ cli ≠ "OK" ∧ (checkFlags "server" respEnc o.resps respFrames).isNone
+            ∧ (!nonIdentity (respEnc.getD "") || supports o.reg o.client.legacyDecomp (respEnc.getD ""))
+            ∧ clientAccepts o (respEnc.getD "") then
+        some s!"VIOL client failed ({cli}) on a response whose encoding it supports and accepts"
+       else none),
       -- end to end: a successful RPC delivered exactly what was sent
       (if o.kind = "e2e" ∧ srv = "ok" ∧ sgot ≠ o.reqs then some "VIOL handler completed but did not receive exactly the request messages" else none),
       (if o.kind = "e2e" ∧ cli = "OK" ∧ cgot ≠ o.resps then some "VIOL RPC succeeded but the client did not receive exactly the response messages" else none)
